@@ -1,5 +1,5 @@
 (* Proofs/PlotFacts.v — facts about Model/Plot.v. *)
-From Coq Require Import List ZArith QArith Bool Qminmax Lqa Lia Arith.
+From Coq Require Import List ZArith QArith Bool Qminmax Qabs Lqa Lia ZifyBool Arith.
 From Koala Require Import Model.Clip Model.Plot Proofs.ClipFacts.
 Import ListNotations.
 
@@ -10,4 +10,242 @@ Proof.
   intro Hidx. unfold broadcast_args. rewrite repeat_length, Nat.eqb_refl. f_equal.
   induction Hidx as [|i l Hi _ IH]; simpl; auto. rewrite IH. f_equal.
   clear IH. revert i Hi. induction N; intros i Hi; [lia|]. destruct i; simpl; auto. apply IHN. lia.
+Qed.
+
+Open Scope Q_scope.
+
+(* ---------- line_intersection agrees with exact arithmetic for non-parallel segments ---------- *)
+(* exists s t in [0,1] with  s1 + s*d1 = s2 + t*d2 *)
+Definition segments_meet (l1 l2 : seg) : Prop :=
+  exists s t : Q, 0 <= s /\ s <= 1 /\ 0 <= t /\ t <= 1 /\
+    px (fst l1) + s * (px (snd l1) - px (fst l1)) == px (fst l2) + t * (px (snd l2) - px (fst l2)) /\
+    py (fst l1) + s * (py (snd l1) - py (fst l1)) == py (fst l2) + t * (py (snd l2) - py (fst l2)).
+
+Definition dir_cross (l1 l2 : seg) : Q :=
+  cross2 (psub (snd l2) (fst l2)) (psub (snd l1) (fst l1)).     (* d2 x d1 *)
+
+Lemma Qabs_zero_iff (c : Q) : Qabs c == 0 <-> c == 0.
+Proof.
+  split; intro H.
+  - destruct (Qlt_le_dec c 0) as [Hn|Hp].
+    + rewrite Qabs_neg in H by lra. lra.
+    + rewrite Qabs_pos in H by lra. exact H.
+  - rewrite H. reflexivity.
+Qed.
+
+Theorem segment_intersection_exact (tol : Q) (l1 l2 : seg) :
+  ~ dir_cross l1 l2 == 0 -> tol <= Qabs (dir_cross l1 l2) ->
+  (line_intersection tol l1 l2 = true <-> segments_meet l1 l2).
+Proof.
+  destruct l1 as [[s1x s1y] [e1x e1y]]. destruct l2 as [[s2x s2y] [e2x e2y]].
+  unfold dir_cross, line_intersection, segments_meet, cross2, psub. cbn [px py fst snd].
+  set (c := (e2x - s2x) * (e1y - s1y) - (e2y - s2y) * (e1x - s1x)).
+  intros Hc Htol.
+  assert (Hpar : Qltb (Qabs c) tol = false).
+  { destruct (Qltb (Qabs c) tol) eqn:E; auto. apply Qltb_iff in E. lra. }
+  rewrite Hpar. cbn [negb].
+  assert (Hc' : ~ (e1x - s1x) * (e2y - s2y) - (e1y - s1y) * (e2x - s2x) == 0) by (unfold c in Hc; lra).
+  assert (Hne : Qeqb c 0 = false).
+  { destruct (Qeqb c 0) eqn:E; auto. apply Qeqb_iff in E. contradiction. }
+  rewrite Hne. cbn [negb andb].
+  rewrite !andb_true_iff, !Qleb_iff.
+  set (t1 := ((s1x - s2x) * (e1y - s1y) - (s1y - s2y) * (e1x - s1x)) / c).
+  set (t2 := ((s2x - s1x) * (e2y - s2y) - (s2y - s1y) * (e2x - s2x)) / ((e1x - s1x) * (e2y - s2y) - (e1y - s1y) * (e2x - s2x))).
+  split.
+  - intros [[[H1 H2] H3] H4]. exists t2, t1. repeat split; try assumption.
+    + unfold t1, t2, c. field. split; assumption.
+    + unfold t1, t2, c. field. split; assumption.
+  - intros (s & t & Hs0 & Hs1 & Ht0 & Ht1 & Ex & Ey).
+    assert (E1 : s1x - s2x == t * (e2x - s2x) - s * (e1x - s1x)) by lra.
+    assert (E2 : s1y - s2y == t * (e2y - s2y) - s * (e1y - s1y)) by lra.
+    assert (Et : t1 == t).
+    { unfold t1. rewrite E1, E2. unfold c. field. exact Hc. }
+    assert (E3 : s2x - s1x == s * (e1x - s1x) - t * (e2x - s2x)) by lra.
+    assert (E4 : s2y - s1y == s * (e1y - s1y) - t * (e2y - s2y)) by lra.
+    assert (Es : t2 == s).
+    { unfold t2. rewrite E3, E4. field. exact Hc'. }
+    rewrite Et, Es. tauto.
+Qed.
+
+(* ---------- subset indices are in range ---------- *)
+Close Scope Q_scope.
+Open Scope nat_scope.
+
+Lemma mapM_Forall {A B : Type} (f : A -> result B) (P : B -> Prop) :
+  (forall a b, f a = Ok b -> P b) ->
+  forall l bs, mapM f l = Ok bs -> Forall P bs.
+Proof.
+  intros Hf. induction l as [|a l IH]; simpl; intros bs H.
+  - injection H as <-. constructor.
+  - destruct (f a) eqn:Ea; simpl in H; [|discriminate].
+    destruct (mapM f l) eqn:El; simpl in H; [|discriminate].
+    injection H as <-. constructor; eauto.
+Qed.
+
+Lemma mapM_length {A B : Type} (f : A -> result B) :
+  forall l bs, mapM f l = Ok bs -> length bs = length l.
+Proof.
+  induction l as [|a l IH]; simpl; intros bs H.
+  - injection H as <-. reflexivity.
+  - destruct (f a) eqn:Ea; simpl in H; [|discriminate].
+    destruct (mapM f l) eqn:El; simpl in H; [|discriminate].
+    injection H as <-. simpl. f_equal. auto.
+Qed.
+
+Lemma wrap_index_range (N : nat) (z : Z) (i : nat) :
+  wrap_index (Z.of_nat N) z = Ok i -> i < N.
+Proof.
+  unfold wrap_index. destruct ((- Z.of_nat N <=? z)%Z && (z <? Z.of_nat N)%Z) eqn:E; [|discriminate].
+  intro H. injection H as <-. apply andb_true_iff in E. destruct E as [E1 E2].
+  destruct (z <? 0)%Z eqn:E3; lia.
+Qed.
+
+Lemma mask_indices_range (m : list bool) : forall i, Forall (fun k => i <= k < i + length m) (mask_indices i m).
+Proof.
+  induction m as [|b m IH]; intro i; simpl; [constructor|].
+  apply Forall_app. split.
+  - destruct b; constructor; [lia|constructor].
+  - eapply Forall_impl; [|apply (IH (S i))]. simpl. intros; lia.
+Qed.
+
+Lemma slice_clamp_range (N : nat) (st v : Z) :
+  (slice_lower st <= slice_clamp (Z.of_nat N) st v <= slice_upper (Z.of_nat N) st)%Z.
+Proof. unfold slice_clamp, slice_lower, slice_upper. destruct (0 <? st)%Z eqn:E0; destruct (v <? 0)%Z eqn:E1; lia. Qed.
+
+Lemma slice_indices_range (N : nat) (a b c : option Z) (idx : list nat) :
+  slice_indices (Z.of_nat N) a b c = Ok idx -> Forall (fun i => i < N) idx.
+Proof.
+  unfold slice_indices. cbv zeta.
+  set (st := slice_step c).
+  destruct (st =? 0)%Z eqn:Est; [discriminate|].
+  assert (Hs : (slice_lower st <= slice_start (Z.of_nat N) st a <= slice_upper (Z.of_nat N) st)%Z).
+  { unfold slice_start. destruct a; [apply slice_clamp_range|]. unfold slice_lower, slice_upper. destruct (0 <? st)%Z eqn:E0; destruct (st <? 0)%Z eqn:E1; lia. }
+  assert (He : (slice_lower st <= slice_stop (Z.of_nat N) st b <= slice_upper (Z.of_nat N) st)%Z).
+  { unfold slice_stop. destruct b; [apply slice_clamp_range|]. unfold slice_lower, slice_upper. destruct (0 <? st)%Z eqn:E0; destruct (st <? 0)%Z eqn:E1; lia. }
+  set (s := slice_start (Z.of_nat N) st a) in *. set (e := slice_stop (Z.of_nat N) st b) in *.
+  clearbody s e. clearbody st.
+  intro H. injection H as <-.
+  apply Forall_forall. intros x Hx. apply in_map_iff in Hx. destruct Hx as (i & <- & Hi).
+  apply in_seq in Hi. simpl in Hi. destruct Hi as [_ Hi].
+  unfold slice_count, slice_lower, slice_upper in *.
+  destruct (0 <? st)%Z eqn:E0.
+  - destruct (s <? e)%Z eqn:E1; [|simpl in Hi; lia].
+    assert (Hq : (0 <= (e - s - 1) / st)%Z) by (apply Z.div_pos; lia).
+    assert (Hd : (st * ((e - s - 1) / st) <= e - s - 1)%Z) by (apply Z.mul_div_le; lia).
+    assert (Hi' : (Z.of_nat i <= (e - s - 1) / st)%Z) by lia.
+    assert ((Z.of_nat i * st <= st * ((e - s - 1) / st))%Z) by nia.
+    lia.
+  - assert (Hst : (st < 0)%Z) by lia.
+    destruct (e <? s)%Z eqn:E1; [|simpl in Hi; lia].
+    assert (Hq : (0 <= (s - e - 1) / (- st))%Z) by (apply Z.div_pos; lia).
+    assert (Hd : ((- st) * ((s - e - 1) / (- st)) <= s - e - 1)%Z) by (apply Z.mul_div_le; lia).
+    assert (Hi' : (Z.of_nat i <= (s - e - 1) / (- st))%Z) by lia.
+    assert ((Z.of_nat i * (- st) <= (- st) * ((s - e - 1) / (- st)))%Z) by nia.
+    lia.
+Qed.
+
+Lemma subset_indices_range (N : nat) (s : subset) (idx : list nat) :
+  subset_indices N s = Ok idx -> Forall (fun i => i < N) idx.
+Proof.
+  destruct s as [a b c|m|l]; simpl.
+  - apply slice_indices_range.
+  - destruct (length m =? N) eqn:E; [|discriminate]. apply Nat.eqb_eq in E. intro H. injection H as <-.
+    eapply Forall_impl; [|apply mask_indices_range]. simpl. intros; lia.
+  - apply mapM_Forall. intros a b. apply wrap_index_range.
+Qed.
+
+(* a boolean mask selecting N of N elements selects all of them, in order *)
+Lemma mask_indices_length_le (m : list bool) : forall i, length (mask_indices i m) <= length m.
+Proof.
+  induction m as [|b m IH]; intro i; simpl; [lia|]. rewrite app_length. specialize (IH (S i)). destruct b; simpl; lia.
+Qed.
+Lemma mask_indices_full (m : list bool) : forall i,
+  length (mask_indices i m) = length m -> mask_indices i m = seq i (length m).
+Proof.
+  induction m as [|b m IH]; intro i; simpl; [reflexivity|].
+  rewrite app_length. intro H. pose proof (mask_indices_length_le m (S i)).
+  destruct b; simpl in *; [|lia]. f_equal. apply IH. lia.
+Qed.
+
+(* ---------- label broadcasting ---------- *)
+Lemma nth_repeat_lt {A : Type} (z d : A) (N i : nat) : i < N -> nth i (repeat z N) d = z.
+Proof.
+  revert i. induction N; intros i Hi; [lia|]. destruct i; simpl; auto. apply IHN. lia.
+Qed.
+
+Lemma map_nth_seq {A : Type} (l : list A) (d : A) : map (fun i => nth i l d) (seq 0 (length l)) = l.
+Proof.
+  induction l as [|a l IH]; simpl; [reflexivity|]. f_equal.
+  rewrite <- seq_shift, map_map. exact IH.
+Qed.
+
+(* labels per element vs the same labels per subset element: identical result *)
+Lemma broadcast_args_equiv (lab : list Z) (idx : list nat) (N : nat) :
+  length lab = N -> (length idx <> N \/ idx = seq 0 N) ->
+  broadcast_args (LList (map (fun i => nth i lab 0%Z) idx)) idx N = broadcast_args (LList lab) idx N.
+Proof.
+  intros Hlen Hcase. unfold broadcast_args. rewrite map_length, Hlen, Nat.eqb_refl.
+  destruct Hcase as [Hne|Heq].
+  - apply Nat.eqb_neq in Hne. rewrite Hne, Nat.eqb_refl. reflexivity.
+  - subst idx. rewrite seq_length, Nat.eqb_refl. subst N. rewrite !map_nth_seq. reflexivity.
+Qed.
+
+Theorem broadcast_equiv {C : Type} (N : nat) (s : subset) (lab : list Z) (scheme : list C) (idx : list nat) :
+  subset_indices N s = Ok idx -> length lab = N -> (length idx <> N \/ idx = seq 0 N) ->
+  process_plot_args N s (LList (map (fun i => nth i lab 0%Z) idx)) scheme = process_plot_args N s (LList lab) scheme.
+Proof.
+  intros Hs Hlen Hcase. unfold process_plot_args. rewrite Hs. simpl.
+  rewrite (broadcast_args_equiv lab idx N Hlen Hcase). reflexivity.
+Qed.
+
+(* for a boolean mask the side condition is automatic *)
+Theorem broadcast_equiv_mask {C : Type} (N : nat) (m : list bool) (lab : list Z) (scheme : list C) (idx : list nat) :
+  subset_indices N (SMask m) = Ok idx -> length lab = N ->
+  process_plot_args N (SMask m) (LList (map (fun i => nth i lab 0%Z) idx)) scheme = process_plot_args N (SMask m) (LList lab) scheme.
+Proof.
+  intros Hs Hlen. apply broadcast_equiv; auto.
+  simpl in Hs. destruct (length m =? N) eqn:E; [|discriminate]. apply Nat.eqb_eq in E. injection Hs as <-.
+  destruct (Nat.eq_dec (length (mask_indices 0 m)) N) as [Heq|Hne]; [right|left; exact Hne].
+  rewrite <- E in *. apply mask_indices_full. exact Heq.
+Qed.
+
+(* scalar label = constant colour array *)
+Lemma mapM_repeat {A B : Type} (f : A -> result B) (a : A) (b : B) (n : nat) :
+  f a = Ok b -> mapM f (repeat a n) = Ok (repeat b n).
+Proof. intro H. induction n; simpl; [reflexivity|]. rewrite H. simpl. rewrite IHn. reflexivity. Qed.
+
+Theorem broadcast_scalar_constant {C : Type} (N : nat) (s : subset) (z : Z) (scheme : list C) (idx : list nat) (c : C) :
+  subset_indices N s = Ok idx -> scheme_at scheme z = Ok c ->
+  process_plot_args N s (LScalar z) scheme = Ok (idx, repeat c (length idx)).
+Proof.
+  intros Hs Hc. unfold process_plot_args. rewrite Hs. simpl.
+  rewrite (broadcast_scalar z idx N (subset_indices_range N s idx Hs)). simpl.
+  rewrite (mapM_repeat _ _ _ _ Hc). reflexivity.
+Qed.
+
+(* wrong length => ValueError *)
+Theorem broadcast_wrong_length {C : Type} (N : nat) (s : subset) (lab : list Z) (scheme : list C) (idx : list nat) :
+  subset_indices N s = Ok idx -> length lab <> N -> length lab <> length idx ->
+  process_plot_args N s (LList lab) scheme = Error ValueError.
+Proof.
+  intros Hs H1 H2. unfold process_plot_args. rewrite Hs. simpl. unfold broadcast_args.
+  apply Nat.eqb_neq in H1. apply Nat.eqb_neq in H2. rewrite H1, H2. reflexivity.
+Qed.
+
+(* colours are looked up element by element: element idx[k] gets scheme[lab[idx[k]]] *)
+Theorem colours_pointwise {C : Type} (N : nat) (s : subset) (lab : list Z) (scheme : list C) (idx : list nat) (cols : list C) :
+  length lab = N -> process_plot_args N s (LList lab) scheme = Ok (idx, cols) ->
+  subset_indices N s = Ok idx /\ length cols = length idx /\
+  forall k d dc, k < length idx -> scheme_at scheme (nth (nth k idx d) lab 0%Z) = Ok (nth k cols dc).
+Proof.
+  intros Hlen. unfold process_plot_args.
+  destruct (subset_indices N s) as [idx'|] eqn:Hs; simpl; [|discriminate].
+  unfold broadcast_args. rewrite Hlen, Nat.eqb_refl. simpl.
+  destruct (mapM (scheme_at scheme) (map (fun i => nth i lab 0%Z) idx')) as [cols'|] eqn:Hm; simpl; [|discriminate].
+  intro H. injection H as <- <-. split; [reflexivity|].
+  pose proof (mapM_length _ _ _ Hm) as Hl. rewrite map_length in Hl. split; [exact Hl|].
+  clear Hs. revert cols' Hm Hl. induction idx' as [|i idx' IH]; intros cols' Hm Hl k d dc Hk; simpl in Hk; [lia|].
+  simpl in Hm. destruct (scheme_at scheme (nth i lab 0%Z)) eqn:E1; simpl in Hm; [|discriminate].
+  destruct (mapM (scheme_at scheme) (map (fun i => nth i lab 0%Z) idx')) eqn:E2; simpl in Hm; [|discriminate].
+  injection Hm as <-. destruct k; simpl; [exact E1|]. apply IH; auto; simpl in Hl; lia.
 Qed.
